@@ -471,7 +471,13 @@ namespace Pistache::Http
             }
 
             if (size == 0)
+            {
+                // The last chunk is followed by the CRLF that ends the (empty)
+                // trailer section: the message is complete only once it is there.
+                if (!cursor.advance(2))
+                    return Incomplete;
                 return Final;
+            }
 
             message->body_.reserve(size);
             StreamCursor::Token chunkData(cursor);
